@@ -44,6 +44,9 @@ CHECKS = {
  "C14": dict(level="exploration", tech="recorded-history monitor on one Document: canonical content recorded after every Update that pushed a history entry, compared at every position of random and exhaustively enumerated well-nested Undo/Redo walks; CanUndo/CanRedo, Root()==Marshal() after every call; all produced changes delivered through the wire codec to a fresh peer",
    text="Random programs of 3..40 Updates over the content alphabet (object set/delete incl. nested containers and containers created together with their first content, array add/insert/delete, text insert/delete/replace, counter increase, tree insert/delete inside one parent), with histories that start on existing content (ClearHistory) or on an empty document, refused Updates included; ALL programs of <=3 (array <=2) edits over reduced alphabets for text/array/tree/object with the full nested walk U^n R^n, U^k R^k. Oracle: content at every history position equals the recorded one, every Undo/Redo returns nil, CanUndo/CanRedo match the position, Root()==Marshal(), a fresh peer applies all produced changes and shows the author's content. Approximate kinds (styles, array move/set-by-index): never fail, clone==root, peer applies and agrees.",
    note="in-process, no server, no remote changes (C15 covers propagation); tree split/merge and dedup counters are outside the property's quantifier and not generated."),
+ "C15": dict(level="exploration", tech="convergence oracle over exhaustively enumerated small-scope two-replica histories (edits x undo/redo x every sync placement, incl. macro events 'everybody syncs and collects' and 'one replica collects first') and random larger ones, on real Documents exchanging changes through an in-process change log that mirrors the server (wire codec, push order, minimum version vector => every pull garbage-collects); plus a fresh replica fed by the log alone",
+   text="2 replicas, base document per family (text/array/tree/object+counter+nested array), ALL event sequences up to length 5 (thorough 6) over {edit_k by A or B from a reduced state-dependent C14 alphabet that always contains a deletion, undo/redo by A or B, sync A, sync B, round, lead A, lead B} with <=3 edits per replica and <=2 (3) undo/redo calls, in four configurations (collection on/off x histories cleared or not), every prefix evaluated; random 2..3-replica histories over the full generator alphabet. Oracle: no Update/Undo/Redo/sync errors or panics; after closing rounds and a final collection all replicas marshal byte-identically; a fresh replica built from the log shows the same canonical content.",
+   note="in-process log, not the RPC server; failures whose precondition is one of four recorded findings (restore racing a concurrent edit, same identity restored twice, undo referring to an acknowledged tombstone, array insertion next to a tombstone under collection) are identified from the log / the author's state and reported as KNOWN-FINDING, everything else is a violation."),
  "C11": dict(level="exploration", tech="reference state machine vs the real RPC server over exhaustively enumerated call sequences (small scope) + sampled longer ones; side-effect observation of logs, client records and version-vector rows around every call",
    text="All sequences up to length 4 (quick) / 5 (thorough) over {Activate, Deactivate, Attach, failing Attach, PushPull, Detach, Remove} x 2 clients x 2 documents modulo renaming, all continuations of the both-attached prefix, and sampled sequences of length 6-8; accept/reject must equal the model, rejected calls leave no trace, accepted calls store exactly their changes (none after removal), rows/status follow the lifecycle.",
    note="memdb; version-vector rows read through verif-tagged accessor; Activate always creates a new client identity (as the server does); failing Attach modelled only from the never-attached state."),
